@@ -24,8 +24,9 @@ type scenario struct {
 	IDs    []string `json:"ids"`              // collection ids (waste: record ids in insertion order)
 	Delete []string `json:"delete,omitempty"` // ids deleted before paging starts (tokens may still name them)
 	Sizes  []int32  `json:"sizes"`
-	Token  string   `json:"token"` // starting page token exactly as sent ("" = first page)
-	Class  string   `json:"class"` // generator class, for distributions only
+	Token  string   `json:"token"`          // starting page token exactly as sent ("" = first page)
+	Mask   []string `json:"mask,omitempty"` // read_mask paths sent with every call (nil = no read mask)
+	Class  string   `json:"class"`          // generator class, for distributions only
 }
 
 // call is one List call of a scenario.
@@ -142,6 +143,27 @@ func canon(variant string, idx map[string]int, p pageResp) string {
 	return fmt.Sprintf("ok %s %s %d", items, next, p.Total)
 }
 
+func maskHas(mask []string, path string) bool {
+	for _, p := range mask {
+		if p == path {
+			return true
+		}
+	}
+	return false
+}
+
+// keyVisible: does the read mask leave the key field in the returned items? (waste ignores read masks)
+func (sc scenario) keyVisible() bool {
+	r, _ := rpcByName(sc.RPC)
+	return sc.Mask == nil || r.Variant == "waste" || maskHas(sc.Mask, r.Key)
+}
+
+// witVisible: is the witness field (set to the item's id by the harness) in the returned items?
+func (sc scenario) witVisible() bool {
+	r, _ := rpcByName(sc.RPC)
+	return r.Wit != "" && (sc.Mask == nil || r.Variant == "waste" || maskHas(sc.Mask, r.Wit))
+}
+
 // collection computes the ids present while paging.
 func (sc scenario) collection() []string {
 	del := map[string]bool{}
@@ -189,7 +211,7 @@ func (sc scenario) run() (calls []call, full []string, err error) {
 		size := sc.Sizes[i%len(sc.Sizes)]
 		c := call{Size: size, Token: tok, Tok: tokClass(r.Variant, tok), Hostile: i == 0 && tok != ""}
 		var resp pageResp
-		p, m := lib.Catch(func() { resp = inst.list(size, tok) })
+		p, m := lib.Catch(func() { resp = inst.list(size, tok, sc.Mask) })
 		if p {
 			c.Panic = m
 			c.Out = "panic"
@@ -220,8 +242,12 @@ func (sc scenario) driverLines(variant string, calls []call) []string {
 	sorted := append([]string(nil), coll...)
 	sort.Strings(sorted)
 	lines = append(lines, "keys "+hexList(sorted))
+	vis := 1
+	if !sc.keyVisible() {
+		vis = 0
+	}
 	for _, c := range calls {
-		lines = append(lines, fmt.Sprintf("page %s %d %s", variant, c.Size, c.Tok))
+		lines = append(lines, fmt.Sprintf("page %s %d %s %d", variant, c.Size, c.Tok, vis))
 	}
 	return lines
 }
@@ -322,7 +348,16 @@ func (sc scenario) monitor(m *lib.Monitor, variant string, calls []call, full []
 			m.Violate(pre+"total-size", "total_size is not the number of items", sc, fmt.Sprint(len(want)), fmt.Sprint(c.Resp.Total))
 			return
 		}
-		got = append(got, c.Resp.Keys...)
+		switch {
+		case sc.keyVisible():
+			got = append(got, c.Resp.Keys...)
+		case sc.witVisible():
+			got = append(got, c.Resp.Wits...) // the key is hidden by the read mask: identify items by the witness field
+		default:
+			for range c.Resp.Keys {
+				got = append(got, "?")
+			}
+		}
 		if c.Resp.Next == "" {
 			ended = true
 		}
@@ -335,6 +370,13 @@ func (sc scenario) monitor(m *lib.Monitor, variant string, calls []call, full []
 		m.Violate(pre+"endless-chain", "the token chain took more than |items|+1 pages", sc, fmt.Sprint("<= ", len(remaining)+1, " pages"), fmt.Sprint(len(calls), " pages"))
 		return
 	}
+	if !sc.keyVisible() && !sc.witVisible() {
+		// items cannot be told apart under this read mask: the count must still be right
+		if len(got) != len(remaining) {
+			m.Violate(pre+"enumerate/count", "the pages do not hold as many items as the listing", sc, fmt.Sprint(len(remaining)), fmt.Sprint(len(got)))
+		}
+		return
+	}
 	if strings.Join(got, "\x00") != strings.Join(remaining, "\x00") || len(got) != len(remaining) {
 		m.Violate(pre+"enumerate/concat", "the concatenated pages are not the listing (every item exactly once, in order)", sc, fmt.Sprint(remaining), fmt.Sprint(got))
 	}
@@ -345,5 +387,5 @@ func (sc scenario) summary() map[string]any {
 	if len(ids) > 8 {
 		ids = append(append([]string(nil), ids[:6]...), fmt.Sprintf("…(%d ids)", len(sc.IDs)))
 	}
-	return map[string]any{"rpc": sc.RPC, "ids": ids, "delete": sc.Delete, "sizes": sc.Sizes, "token": sc.Token, "class": sc.Class}
+	return map[string]any{"rpc": sc.RPC, "ids": ids, "delete": sc.Delete, "sizes": sc.Sizes, "token": sc.Token, "mask": sc.Mask, "class": sc.Class}
 }
